@@ -5,6 +5,7 @@ package main
 
 import (
 	"fmt"
+	"go/constant"
 	"go/token"
 	"go/types"
 	"math"
@@ -253,6 +254,12 @@ func (rg *ranger) structural(v ssa.Value, at *ssa.BasicBlock, depth int) itv {
 			if c.Call.IsInvoke() && c.Call.Method.Name() == "Read" && x.Index == 0 {
 				return itv{lo: 0, hi: posInf, why: "io.Reader contract n >= 0"}
 			}
+			if infallibleWrite(c) && x.Index == 0 && len(c.Call.Args) == 1 {
+				if lr, ok := rg.lenOf(c.Call.Args[0], at, depth+1); ok {
+					lr.why = "hash.Hash.Write returns len(p)"
+					return lr
+				}
+			}
 		}
 		return top()
 	case *ssa.Parameter:
@@ -294,8 +301,44 @@ func (rg *ranger) allocRange(a *ssa.Alloc, depth int) itv {
 }
 
 func (rg *ranger) floatToInt(f ssa.Value, at *ssa.BasicBlock, depth int) itv {
-	// int(math.Round/Floor/Ceil(x)) and int(x*c): sign information only from dominating float conds — not modelled
+	// int(math.Ceil(x)) with x > 0 is >= 1; other float-to-int conversions are not modelled
+	if c, ok := f.(*ssa.Call); ok {
+		if callee := c.Call.StaticCallee(); callee != nil && callee.String() == "math.Ceil" {
+			if rg.posFloat(c.Call.Args[0], at, depth+1) {
+				return itv{lo: 1, hi: posInf, why: "ceil of a strictly positive value"}
+			}
+		}
+	}
 	return top()
+}
+
+// posFloat: the float value is strictly positive.
+func (rg *ranger) posFloat(v ssa.Value, at *ssa.BasicBlock, depth int) bool {
+	if depth > 12 {
+		return false
+	}
+	switch x := v.(type) {
+	case *ssa.Const:
+		if x.Value != nil {
+			if f, ok := constant.Float64Val(constant.ToFloat(x.Value)); ok {
+				return f > 0
+			}
+		}
+	case *ssa.Convert:
+		if b, ok := x.X.Type().Underlying().(*types.Basic); ok {
+			if b.Info()&types.IsInteger != 0 {
+				return rg.rangeAt(x.X, at, depth+1).lo >= 1
+			}
+			if b.Info()&types.IsFloat != 0 {
+				return rg.posFloat(x.X, at, depth+1)
+			}
+		}
+	case *ssa.BinOp:
+		if x.Op == token.MUL || x.Op == token.QUO || x.Op == token.ADD {
+			return rg.posFloat(x.X, at, depth+1) && rg.posFloat(x.Y, at, depth+1)
+		}
+	}
+	return false
 }
 
 func (rg *ranger) phi(x *ssa.Phi, depth int) itv {
@@ -510,14 +553,37 @@ func (rg *ranger) lenOf(s ssa.Value, at *ssa.BasicBlock, depth int) (itv, bool) 
 			switch callee.String() {
 			case "strings.Split", "strings.SplitN", "bytes.Split":
 				return itv{lo: 1, hi: posInf, why: "strings.Split returns >= 1 element"}, true
+			case "encoding/hex.EncodeToString":
+				if ar, ok := rg.lenOf(x.Call.Args[0], at, depth+1); ok {
+					return itv{lo: satMul(ar.lo, 2), hi: satMul(ar.hi, 2), why: "hex.EncodeToString doubles the length"}, true
+				}
 			}
 		}
 	case *ssa.Slice:
-		// s[lo:hi] of known bounds
-		if x.High != nil && x.Low != nil {
-			lo := rg.rangeAt(x.Low, at, depth+1)
-			hi := rg.rangeAt(x.High, at, depth+1)
-			return itv{lo: max64(0, satAdd(hi.lo, satNeg(lo.hi))), hi: max64(0, satAdd(hi.hi, satNeg(lo.lo)))}, true
+		// a[:] of an array
+		if x.High == nil && x.Low == nil {
+			t := x.X.Type().Underlying()
+			if pt, ok := t.(*types.Pointer); ok {
+				t = pt.Elem().Underlying()
+			}
+			if arr, ok := t.(*types.Array); ok {
+				return point(arr.Len()), true
+			}
+		}
+		{
+			lo := point(0)
+			if x.Low != nil {
+				lo = rg.rangeAt(x.Low, at, depth+1)
+			}
+			var hi itv
+			if x.High != nil {
+				hi = rg.rangeAt(x.High, at, depth+1)
+			} else if xr, ok := rg.lenOf(x.X, at, depth+1); ok {
+				hi = xr
+			} else {
+				hi = itv{lo: 0, hi: posInf}
+			}
+			return itv{lo: max64(0, satAdd(hi.lo, satNeg(lo.hi))), hi: max64(0, satAdd(hi.hi, satNeg(lo.lo))), why: "length of a slice expression"}, true
 		}
 	case *ssa.MakeSlice:
 		return rg.rangeAt(x.Len, at, depth+1), true
@@ -596,14 +662,94 @@ func (rg *ranger) paramRange(prm *ssa.Parameter, depth int) itv {
 	return r
 }
 
-// refineByConds tightens r using branch conditions that dominate `at`.
+// refineByConds tightens r using the branch conditions that hold at `at`:
+// the join over all feasible path condition sets.
 func (rg *ranger) refineByConds(v ssa.Value, r itv, at *ssa.BasicBlock, depth int) itv {
 	key := exprKey(v)
 	f := factsOf(at.Parent())
-	for _, c := range f.dominatingConds(at) {
-		r = rg.applyCond(v, key, r, c, depth)
+	var res itv
+	first := true
+	for _, set := range f.condSets(at) {
+		x := r
+		for _, c := range set {
+			x = rg.applyCond(v, key, x, c, depth)
+		}
+		if x.lo > x.hi {
+			continue // this path contradicts what is known about v
+		}
+		if !rg.feasible(set, depth) {
+			continue
+		}
+		if first {
+			res, first = x, false
+		} else {
+			res = join(res, x)
+		}
 	}
-	return r
+	if first {
+		return r // no feasible path: code is unreachable, keep the unrefined range
+	}
+	return res
+}
+
+// feasible: the integer comparisons of a condition set against constants do not contradict each other.
+func (rg *ranger) feasible(set []cond, depth int) bool {
+	if depth > 10 {
+		return true
+	}
+	type subj struct {
+		v   ssa.Value
+		key string
+	}
+	var subjects []subj
+	seen := map[string]bool{}
+	for _, c := range set {
+		bo, ok := c.V.(*ssa.BinOp)
+		if !ok {
+			continue
+		}
+		for _, side := range []ssa.Value{bo.X, bo.Y} {
+			if _, isC := side.(*ssa.Const); isC {
+				continue
+			}
+			if bt, ok := side.Type().Underlying().(*types.Basic); !ok || bt.Info()&types.IsInteger == 0 {
+				continue
+			}
+			k := exprKey(side)
+			if k == "" || k[0] == '@' {
+				k = "@" + side.Name() + "#" + fmt.Sprint(side.Pos())
+			}
+			if !seen[k] {
+				seen[k] = true
+				subjects = append(subjects, subj{side, k})
+			}
+		}
+	}
+	for _, sj := range subjects {
+		x := meet(typeRange(sj.v.Type()), rg.structuralNoCtx(sj.v, depth))
+		for _, c := range set {
+			x = rg.applyCond(sj.v, exprKey(sj.v), x, c, depth+4)
+		}
+		if x.lo > x.hi || (x.nonZero && x.lo == 0 && x.hi == 0) {
+			return false
+		}
+	}
+	return true
+}
+
+// structuralNoCtx: structural range without branch refinement (len >= 0, unsigned, constants).
+func (rg *ranger) structuralNoCtx(v ssa.Value, depth int) itv {
+	switch x := v.(type) {
+	case *ssa.Call:
+		if b, ok := x.Call.Value.(*ssa.Builtin); ok && (b.Name() == "len" || b.Name() == "cap") {
+			return itv{lo: 0, hi: posInf}
+		}
+	case *ssa.Const:
+		if c, ok := constInt(x); ok {
+			return point(c)
+		}
+	}
+	return top()
 }
 
 func stripConv(v ssa.Value) ssa.Value {
@@ -722,4 +868,18 @@ func (rg *ranger) applyCond(v ssa.Value, key string, r itv, c cond, depth int) i
 		}
 	}
 	return r
+}
+
+// infallibleWrite: documented never to fail ("It never returns an error").
+func infallibleWrite(c *ssa.Call) bool {
+	if c.Call.IsInvoke() && c.Call.Method.Name() == "Write" {
+		return types.TypeString(c.Call.Value.Type(), nil) == "hash.Hash"
+	}
+	if callee := c.Call.StaticCallee(); callee != nil {
+		switch callee.String() {
+		case "(*bytes.Buffer).Write", "(*bytes.Buffer).WriteString", "(*strings.Builder).WriteString", "(*strings.Builder).Write":
+			return true
+		}
+	}
+	return false
 }
